@@ -23,7 +23,7 @@ def repairs():
         seen.add(c)
         what = re.sub(r"^fixed: property=\S+ \S+ ", "", f.get("what", ""))
         rows.append("| %s | %s | %s |" % (c, f.get("property"), what.replace("|", "/")[:420]))
-    head = "`fix:` commits (%d), all recorded as `fixed:` entries in `known_findings.json` / `known.d/*.json`:\n\n| commit | property | what failed |\n|---|---|---|\n" % len(rows)
+    head = "`fix:` commits (%d), all recorded as `fixed:` entries in `known_findings.json`:\n\n| commit | property | what failed |\n|---|---|---|\n" % len(rows)
     return head + "\n".join(rows) + "\n"
 
 def seeded():
